@@ -251,19 +251,23 @@ def sites_of(body):
     return out
 
 
+_MIRROR = {'Lt': 'Gt', 'Gt': 'Lt', 'Le': 'Ge', 'Ge': 'Le', 'Eq': 'Eq', 'Ne': 'Ne'}
+
+
 def _cmp_edges(body, want):
     """edges on which relation `want(a_key, b_key, op)` -> 'T'/'F'/None says which edge is safe"""
     safe = set()
     for (bb, j, op, a, b, dest) in prims.compare_sites(body):
         ka, kb = expr_key(body, a), expr_key(body, b)
-        w = want(ka, kb, op, a, b)
+        # `a op b` and `b op' a` are the same test: every `want` sees both orientations
+        w = want(ka, kb, op, a, b) or want(kb, ka, _MIRROR.get(op, op), b, a)
         if w:
             te, fe = prims.bool_local_edges(body, dest)
             safe |= te if w == 'T' else fe
     for t in body.calls('core::cmp::PartialOrd::lt', 'core::cmp::PartialOrd::le', 'core::cmp::PartialOrd::gt', 'core::cmp::PartialOrd::ge'):
         op = {'lt': 'Lt', 'le': 'Le', 'gt': 'Gt', 'ge': 'Ge'}[t.d['f'].split('::')[-1]]
         ka, kb = expr_key(body, t.d['a'][0]), expr_key(body, t.d['a'][1])
-        w = want(ka, kb, op, t.d['a'][0], t.d['a'][1])
+        w = want(ka, kb, op, t.d['a'][0], t.d['a'][1]) or want(kb, ka, _MIRROR.get(op, op), t.d['a'][1], t.d['a'][0])
         if w:
             tr = prims.track_result(None, body, t)
             safe |= tr.success if w == 'T' else tr.failure
@@ -517,6 +521,10 @@ def discharge(facts, s):
                     return {'Ge': 'T', 'Gt': 'T', 'Lt': 'F', 'Le': None}.get(o)
                 if x == B and y == A:
                     return {'Le': 'T', 'Lt': 'T', 'Gt': 'F', 'Ge': None}.get(o)
+                if kbv is not None and y == A and 'k' in oa and oa['k'].get('v') is not None:
+                    # constant on the left (`0 == self.level`, `1 <= n`): mirror the comparison
+                    x, y, oa, ob = y, x, ob, oa
+                    o = {'Lt': 'Gt', 'Gt': 'Lt', 'Le': 'Ge', 'Ge': 'Le'}.get(o, o)
                 if kbv is not None and x == A and 'k' in ob and ob['k'].get('v') is not None:
                     c = ob['k']['v']
                     if o == 'Ge' and c >= kbv:
